@@ -11,6 +11,31 @@ import (
 )
 
 func init() {
+	replayers["C10/long-splits"] = func(c *Ctx, raw json.RawMessage) string {
+		var cs struct {
+			B         []byte
+			Mode, Cut int
+		}
+		json.Unmarshal(raw, &cs)
+		var whole, sp buffer.Buffer
+		whole.SetMode(buffer.OutputMode(cs.Mode))
+		whole.Write(cs.B)
+		sp.SetMode(buffer.OutputMode(cs.Mode))
+		sp.Write(cs.B[:cs.Cut])
+		sp.WriteString(string(cs.B[cs.Cut:]))
+		if a, b := string(whole.RedactableString()), string(sp.RedactableString()); a != b {
+			return fmt.Sprintf("one write %q, cut at %d %q", a, cs.Cut, b)
+		}
+		return ""
+	}
+	replayers["C10/tails"] = func(c *Ctx, raw json.RawMessage) string {
+		var cs c10case
+		json.Unmarshal(raw, &cs)
+		if d := c10EvalEscape(cs.B, cs.StartLoc, cs.BNL); d != "" {
+			return d
+		}
+		return c10EvalPublic(cs.B)
+	}
 	checks["C10"] = checkC10
 	rules["C10"] = "every byte string over {a,space,LF,?,E2,80,B9,BA} up to the stated length, x every start offset x both line-split settings, compared with an append-only reference model; plus EscapeMarkers/EscapeBytes clauses, all write-splits on ManualBuffer and a systematic long family; distinct = distinct outputs"
 	replayers["C10/escape-model"] = func(c *Ctx, raw json.RawMessage) string {
@@ -320,14 +345,6 @@ func checkC10(c *Ctx) {
 		}
 		w.Seen(uint64(blk))
 	})
-	replayers["C10/tails"] = func(c *Ctx, raw json.RawMessage) string {
-		var cs c10case
-		json.Unmarshal(raw, &cs)
-		if d := c10EvalEscape(cs.B, cs.StartLoc, cs.BNL); d != "" {
-			return d
-		}
-		return c10EvalPublic(cs.B)
-	}
 	c.Section("C10/public", map[string]interface{}{"alphabet": alphaB, "max_len": n, "functions": "EscapeMarkers, EscapeBytes"}, en.Total, func(i int, w *Worker) {
 		b := en.Get(i, nil)
 		w.Eval()
@@ -406,23 +423,6 @@ func checkC10(c *Ctx) {
 		}
 		w.SeenB(b)
 	})
-	replayers["C10/long-splits"] = func(c *Ctx, raw json.RawMessage) string {
-		var cs struct {
-			B         []byte
-			Mode, Cut int
-		}
-		json.Unmarshal(raw, &cs)
-		var whole, sp buffer.Buffer
-		whole.SetMode(buffer.OutputMode(cs.Mode))
-		whole.Write(cs.B)
-		sp.SetMode(buffer.OutputMode(cs.Mode))
-		sp.Write(cs.B[:cs.Cut])
-		sp.WriteString(string(cs.B[cs.Cut:]))
-		if a, b := string(whole.RedactableString()), string(sp.RedactableString()); a != b {
-			return fmt.Sprintf("one write %q, cut at %d %q", a, cs.Cut, b)
-		}
-		return ""
-	}
 	c.Assume("alphabet argument: the scanner looks ahead exactly 3 bytes and its tail guard at most 4; every byte of both markers is a symbol, so every alignment of a (partial) marker against the end of input, the start offset and a neighbouring marker occurs")
 }
 
